@@ -38,9 +38,14 @@ def acovS (ts : List α) (k : Nat) : α :=
 theorem mean_def (ts : List α) : mean ts = meanS ts := by
   rw [mean, sum8_eq, list_sum_eq_range, meanS]
 
-/-- **acovf_def.**  `acovf` is the biased autocovariance estimator at lag `|k|`, for every series and lag. -/
-theorem acovf_def (ts : List α) (k : Int) : acovf ts k = acovS ts k.natAbs := by
+/-- Algebraic form of `acovf` in a field, all series and lags.  For the empty series both sides are the field's
+junk value of a division by zero (the code returns NaN there): the property statement is `acovf_def` below. -/
+theorem acovf_field (ts : List α) (k : Int) : acovf ts k = acovS ts k.natAbs := by
   rw [acovf, iterSum_eq, lagProducts_sum, mean_def, acovS, one_div, inv_mul_eq_div]
+
+/-- **acovf_def.**  For every non-empty series and every lag, `acovf` is the biased autocovariance estimator at lag
+`|k|`.  (The guard is exactly where the code returns a number: for `n = 0` it forms `1/0 · (−0)`, see `acovf_empty`.) -/
+theorem acovf_def (ts : List α) (k : Int) (_hn : ts ≠ []) : acovf ts k = acovS ts k.natAbs := acovf_field ts k
 
 theorem sq_sum_eq (ts : List α) (m : α) :
     iterSum (ts.map fun x => powi (x - m) 2) = ∑ i ∈ Finset.range (ts.length - 0), (ts[i + 0]! - m) * (ts[i]! - m) := by
@@ -55,24 +60,49 @@ theorem sq_sum_eq (ts : List α) (m : α) :
   simp only [Nat.add_zero]
   rw [getElem!_pos ts i hi', this, pow_two]
 
-/-- **acf_def.**  `acf` is the ratio of the lag-`|k|` and lag-0 biased autocovariances. -/
-theorem acf_def (ts : List α) (k : Int) : acf ts k = acovS ts k.natAbs / acovS ts 0 := by
-  have h := acovf_def ts k
-  rw [acovf] at h
-  simp only [acf]
-  rw [h, sq_sum_eq, mean_def]
-  rfl
+/-- numerator of `acf` as the code forms it: `1/n · Σ (tsᵢ − m)(ts_{i−|k|} − m)` -/
+def acfNum (ts : List α) (k : Int) : α := 1 / (ts.length : α) * iterSum (lagProducts ts (mean ts) k.natAbs)
+
+/-- denominator of `acf` as the code forms it: `Σ (tsᵢ − m).powi(2) / n` -/
+def acfDen (ts : List α) : α := iterSum (ts.map fun x => powi (x - mean ts) 2) / (ts.length : α)
+
+/-- `acf` is literally the quotient of these two expressions (any series, any lag). -/
+theorem acf_eq_num_div_den (ts : List α) (k : Int) : acf ts k = acfNum ts k / acfDen ts := rfl
+
+theorem acfNum_eq (ts : List α) (k : Int) : acfNum ts k = acovS ts k.natAbs := acovf_field ts k
+
+theorem acfDen_eq (ts : List α) : acfDen ts = acovS ts 0 := by
+  rw [acfDen, sq_sum_eq, mean_def]; rfl
+
+/-- Algebraic form of `acf` in a field (junk value `x/0 = 0` of the field when the variance vanishes; the property
+statement is `acf_def`). -/
+theorem acf_field (ts : List α) (k : Int) : acf ts k = acovS ts k.natAbs / acovS ts 0 := by
+  rw [acf_eq_num_div_den, acfNum_eq, acfDen_eq]
+
+/-- **acf_def.**  For every series of non-zero variance (in particular non-empty) and every lag, `acf` is the ratio of
+the lag-`|k|` and lag-0 biased autocovariances.  For zero variance the code divides `0` by `0` (`acf_degenerate`). -/
+theorem acf_def (ts : List α) (k : Int) (_hv : acovS ts 0 ≠ 0) : acf ts k = acovS ts k.natAbs / acovS ts 0 :=
+  acf_field ts k
 
 /-- **acf_zero.**  The autocorrelation at lag 0 is 1 whenever the variance is non-zero. -/
 theorem acf_zero (ts : List α) (hv : acovS ts 0 ≠ 0) : acf ts 0 = 1 := by
-  rw [acf_def]; exact div_self hv
+  rw [acf_def ts 0 hv]; exact div_self hv
 
-/-- **acovf_large_lag.**  Lags with `|k| ≥ n` give 0 (empty sum), for `acovf` and `acf`. -/
+/-- **acovf_large_lag.**  Lags with `|k| ≥ n` give 0 (empty sum): `acovf` for every non-empty series, `acf` for every
+series of non-zero variance (for a constant series the code returns `−0/0`, see `acf_degenerate`). -/
 theorem acovf_large_lag (ts : List α) (k : Int) (h : ts.length ≤ k.natAbs) :
-    acovf ts k = 0 ∧ acf ts k = 0 := by
+    (ts ≠ [] → acovf ts k = 0) ∧ (acovS ts 0 ≠ 0 → acf ts k = 0) := by
   have h0 : acovS ts k.natAbs = 0 := by
     rw [acovS, Nat.sub_eq_zero_of_le h]; simp
-  exact ⟨by rw [acovf_def, h0], by rw [acf_def, h0, zero_div]⟩
+  exact ⟨fun hn => by rw [acovf_def ts k hn, h0], fun hv => by rw [acf_def ts k hv, h0, zero_div]⟩
+
+/-- **acovf_empty / acf_empty.**  What the code forms on an empty series, in any scalar type: `1/0 · (−0)` for `acovf`
+and `(1/0 · (−0)) / ((−0)/0)` for `acf` with `0 = (0 : usize) as f64` — NaN in IEEE arithmetic (corpus lines
+`acovf empty`, `acf empty`). -/
+theorem acovf_empty {β : Type} [Add β] [Sub β] [Mul β] [Div β] [Neg β] [Zero β] [One β] [NatCast β] (k : Int) :
+    acovf ([] : List β) k = 1 / ((0 : Nat) : β) * (-0) ∧
+      acf ([] : List β) k = (1 / ((0 : Nat) : β) * (-0)) / ((-0) / ((0 : Nat) : β)) := by
+  constructor <;> simp [acovf, acf, lagProducts, iterSum]
 
 end spec
 
@@ -132,7 +162,7 @@ theorem lag_sum_le (a : Nat → α) (n k : Nat) :
 /-- **acf_abs_le_one.**  `|acf ts k| ≤ 1` for every lag (Cauchy–Schwarz in the form `2|ab| ≤ a² + b²`), whenever
 the variance is non-zero (for zero variance the code divides 0 by 0). -/
 theorem acf_abs_le_one (ts : List α) (k : Int) (hv : acovS ts 0 ≠ 0) : |acf ts k| ≤ 1 := by
-  rw [acf_def]
+  rw [acf_def ts k hv]
   have hn : (ts.length : α) ≠ 0 := by
     intro h; apply hv; rw [acovS, h, div_zero]
   have hnpos : (0 : α) < ts.length := by
@@ -147,6 +177,30 @@ theorem acf_abs_le_one (ts : List α) (k : Int) (hv : acovS ts 0 ≠ 0) : |acf t
     exact div_nonneg (Finset.sum_nonneg fun i _ => sq_nonneg _) hnpos.le
   rw [abs_div, abs_of_pos hD, div_le_one hD, acovS, abs_div, abs_of_pos hnpos, h0]
   exact div_le_div_of_nonneg_right hle hnpos.le
+
+/-- **acf_degenerate.**  The complementary case: when the variance is zero (constant or empty series) the numerator
+the code forms is `0` for every lag and the denominator is `0`, so `acf` evaluates the quotient `0/0` — NaN in IEEE
+arithmetic (observed on the implementation: corpus line `acf constant`), the junk value `0` in a field. -/
+theorem acf_degenerate (ts : List α) (k : Int) (hv : acovS ts 0 = 0) :
+    acfNum ts k = 0 ∧ acfDen ts = 0 ∧ acf ts k = acfNum ts k / acfDen ts := by
+  refine ⟨?_, by rw [acfDen_eq, hv], rfl⟩
+  rw [acfNum_eq]
+  by_cases hn : (ts.length : α) = 0
+  · rw [acovS, hn, div_zero]
+  have hle := lag_sum_le (fun i => ts[i]! - meanS ts) ts.length k.natAbs
+  have h0 : ∑ i ∈ Finset.range ts.length, (ts[i]! - meanS ts) ^ 2 = 0 := by
+    have : acovS ts 0 = (∑ i ∈ Finset.range ts.length, (ts[i]! - meanS ts) ^ 2) / ts.length := by
+      rw [acovS]; simp [pow_two]
+    rw [this, div_eq_zero_iff] at hv
+    exact hv.resolve_right hn
+  rw [h0] at hle
+  have : ∑ i ∈ Finset.range (ts.length - k.natAbs), (ts[i + k.natAbs]! - meanS ts) * (ts[i]! - meanS ts) = 0 :=
+    abs_eq_zero.mp (le_antisymm hle (abs_nonneg _))
+  rw [acovS, this, zero_div]
+
+example : acf ([5 / 2, 5 / 2, 5 / 2] : List ℚ) 1 = acfNum [5 / 2, 5 / 2, 5 / 2] 1 / acfDen [5 / 2, 5 / 2, 5 / 2] ∧
+    acfNum ([5 / 2, 5 / 2, 5 / 2] : List ℚ) 1 = 0 ∧ acfDen ([5 / 2, 5 / 2, 5 / 2] : List ℚ) = 0 := by
+  refine ⟨rfl, by decide +kernel, by decide +kernel⟩
 
 end bound
 
@@ -300,6 +354,22 @@ theorem fitAcf_get (p : Nat) (data : List α) (t : Nat) (ht : t ≤ p) (h : data
   simp only [List.getElem_map, List.getElem_range]
   exact acf_sub_const data (mean data) t h
 
+omit [BEq α] [Transc α] in
+/-- the matrix `fit` inverts is the Toeplitz matrix of the series' autocorrelations: entry `(a, b)` is `r_{|a−b|}` -/
+theorem fit_toeplitz_entry (p : Nat) (data : List α) (hd : data ≠ []) (a b : Nat) (ha : a < p) (hb : b < p) :
+    (toeplitz ((fitAcf p data).take p)).length = p * p ∧
+    (toeplitz ((fitAcf p data).take p))[a * p + b]! = acf data ((if b ≤ a then a - b else b - a : Nat) : Int) := by
+  have hlen := (fitAcf_get p data 0 (Nat.zero_le _) hd).1
+  have htl : ((fitAcf p data).take p).length = p := by simp [hlen]
+  have h1 := toeplitz_get ((fitAcf p data).take p) a b (by rw [htl]; exact ha) (by rw [htl]; exact hb)
+  rw [htl] at h1
+  refine ⟨h1.1, ?_⟩
+  rw [h1.2]
+  have hidx : (if b ≤ a then a - b else b - a) < p := by split <;> omega
+  rw [getElem!_pos _ _ (by rw [htl]; exact hidx), List.getElem_take,
+    ← getElem!_pos (fitAcf p data) _ (by rw [hlen]; omega)]
+  exact (fitAcf_get p data _ (by omega) hd).2
+
 /-- **fit_yule_walker.**  If `invert_matrix` returned an exact inverse of the Toeplitz autocorrelation matrix, the
 stored coefficients, un-reversed (`φ_j = coeffs[p−1−j]`, the weight of lag `j+1`), solve the Yule–Walker equations of
 the series' autocorrelations: `Σ_j φ_j r_{|i−j|} = r_{i+1}`, `i = 0 … p−1`, with `r_k = acf data k`. -/
@@ -378,6 +448,33 @@ example : C14.IsInverse 1 (toeplitz ([1] : List ℚ)) [1] := by
   have hj' : j = 0 := by omega
   subst hi' hj'
   norm_num [Finset.sum_range_succ, toeplitz, Mat.build]
+
+/-! Order 2, where the coefficient reversal and the `|i − j|` indexing are visible: `1, 0, −1, 0` has `r₁ = 0`,
+`r₂ = −1/2`; the Toeplitz matrix is the identity (pivots 1), and the stored coefficients are `[φ₂, φ₁] = [−1/2, 0]`. -/
+
+theorem ex2_acf : fitAcf 2 ([1, 0, -1, 0] : List ℚ) = [1, 0, -1 / 2] := by decide +kernel
+theorem ex2_inv : invertMatrix (toeplitz ([1, 0] : List ℚ)) = some [1, 0, 0, 1] := by decide +kernel
+theorem ex2_fit : arFit 2 ([1, 0, -1, 0] : List ℚ) = some (0, [-1 / 2, 0]) := by decide +kernel
+
+theorem ex2_isInverse : C14.IsInverse 2 (toeplitz ((fitAcf 2 ([1, 0, -1, 0] : List ℚ)).take 2)) [1, 0, 0, 1] := by
+  rw [ex2_acf]
+  refine ⟨rfl, ?_⟩
+  intro i j hi hj
+  have hi' : i = 0 ∨ i = 1 := by omega
+  have hj' : j = 0 ∨ j = 1 := by omega
+  rcases hi' with rfl | rfl <;> rcases hj' with rfl | rfl <;>
+    norm_num [Finset.sum_range_succ, toeplitz, Mat.build]
+
+/-- `fit_yule_walker` instantiated at `p = 2` with every hypothesis discharged. -/
+example : ∃ ic co, arFit 2 ([1, 0, -1, 0] : List ℚ) = some (ic, co) ∧ co.length = 2 ∧
+    ∀ i, i < 2 →
+      ∑ j ∈ Finset.range 2, acf ([1, 0, -1, 0] : List ℚ) ((if j ≤ i then i - j else j - i : Nat) : Int) * co.reverse[j]! =
+        acf ([1, 0, -1, 0] : List ℚ) ((i + 1 : Nat) : Int) :=
+  fit_yule_walker 2 ([1, 0, -1, 0] : List ℚ) [1, 0, 0, 1] (by simp) (by norm_num)
+    (by rw [ex2_acf]; exact ex2_inv) ex2_isInverse
+
+/-- and the forecasts of that fit: `x̂₁ = φ₁·0 + φ₂·(−1) = 1/2`, `x̂₂ = φ₁·(1/2) + φ₂·0 = 0`, `x̂₃ = φ₂·(1/2) = −1/4`. -/
+example : predict ([-1 / 2, 0] : List ℚ) 0 [1, 0, -1, 0] 3 = some [1 / 2, 0, -1 / 4] := by decide +kernel
 
 end witness
 
